@@ -7,6 +7,9 @@ def run_c07(tier, seed):
     pid = "C07"
     t0 = time.time()
     names, done, problems = common.obligations(pid)
+    chk = common.coqchk(run_if_missing=(tier == "thorough"))
+    if chk.get("status") == "failed":
+        problems = problems + ["coqchk rejects the compiled development: " + chk.get("tail", "")[-300:]]
     tmp = None
     try:
         try:
@@ -59,7 +62,7 @@ def run_c07(tier, seed):
             viol = 1
         coverage = dict(
             explanation="C07 can only be partial with this technique: Coq carries the lock-discipline theorems of the concurrent model (listed under theorems); that the Go statements sit inside those lock windows, and the Go memory model itself, are not modelled. The deciding dynamic part is Go's race detector (happens-before based) on stress programs over the unmodified tree (real sync.Mutex), all six types, small and large orders, plus the Update counter.",
-            obligations=len(names), discharged=len(done), theorems=names, trusted_base=common.TRUSTED_BASE,
+            obligations=len(names), discharged=len(done), theorems=names, trusted_base=common.TRUSTED_BASE, coqchk={k: v for k, v in chk.items() if k != "tail"},
             evaluations=total_ops, distinct_nontrivial=len(runs), programs=len(configs),
             rule="one stress program per (type, order, goroutines, key universe); non-trivial = ran to completion with >= 6 goroutines mixing all operations and scans",
             samples=runs[:3], races=len(races), other_failures=len(other_fail), repo_fingerprint=common.repo_fingerprint())
@@ -79,6 +82,9 @@ def run_c12(tier, seed):
     pid = "C12"
     t0 = time.time()
     names, done, problems = common.obligations(pid)
+    chk = common.coqchk(run_if_missing=(tier == "thorough"))
+    if chk.get("status") == "failed":
+        problems = problems + ["coqchk rejects the compiled development: " + chk.get("tail", "")[-300:]]
     tmp = None
     try:
         try:
@@ -159,7 +165,7 @@ def run_c12(tier, seed):
             common.violation(pid, dict(kind="order", correspondence="checkOrder vs check_order", mismatch=mism[:3], proof_obligations_broken=problems), found_input=False)
             viol += 1
         cov = dict(seq["coverage"]) if seq.get("coverage") else {}
-        cov.update(obligations=len(names), discharged=len(done), theorems=names, trusted_base=common.TRUSTED_BASE,
+        cov.update(obligations=len(names), discharged=len(done), theorems=names, trusted_base=common.TRUSTED_BASE, coqchk={k: v for k, v in chk.items() if k != "tail"},
                    checker_cmd="cd /verif/coq && make -j16 && coqc -Q . GB Properties.v",
                    orders_validated=len(orders), exhaustive=True,
                    exhaustive_scope="order validation: every int in [-70000,70000], 2^n+d for n<=62,|d|<=16, -2^n+-2, MinInt64, MaxInt64; six constructors each (construction skipped above 2^20, checkOrder consulted)",
